@@ -11,7 +11,7 @@ import time
 import numpy as np
 from jax import numpy as jnp
 
-from gaussian_toolbox import conditional
+from gaussian_toolbox import conditional, factor
 
 from .. import alphabet as al
 from .. import bfs, objs
@@ -54,8 +54,9 @@ def shards(tier, seed):
 
 # ---------------------------------------------------------------------------
 class State:
-    def __init__(self, post, ev, S):
+    def __init__(self, post, ev, S, chains=None):
         self.post, self.ev, self.S = post, ev, S
+        self.chains = chains or {}
 
 
 class RegSystem:
@@ -79,7 +80,11 @@ class RegSystem:
 
     def roots(self):
         def build():
-            return State(objs.mk_pdf("GaussianPDF", self.S0[None], self.m0[None]), 0.0, frozenset()), dict(S=frozenset())
+            prior = lambda: objs.mk_measure("GaussianMeasure", *[a[None] for a in rm.moment_to_nat(self.m0, self.S0)])
+            chains = {"setyT": prior(), "setyAlt": prior()}
+            if len(self.b[0]) == 1:
+                chains.update({"rank1T": prior(), "rank1Alt": prior()})
+            return State(objs.mk_pdf("GaussianPDF", self.S0[None], self.m0[None]), 0.0, frozenset(), chains), dict(S=frozenset())
 
         return [("prior", build)]
 
@@ -95,7 +100,20 @@ class RegSystem:
                 pred = c.affine_marginal_transformation(o.post)
                 ev = o.ev + float(np.asarray(pred.evaluate_ln(yi))[0, 0])
                 post = c.affine_conditional_transformation(o.post).condition_on_x(yi)
-                return State(post, ev, o.S | {i})
+                # route (c'): the likelihood factors multiplied in one at a time, in this order, with covariance
+                # updates requested always / alternately; scalar observations also as hand-built rank-one factors
+                chains = {}
+                for name, m in o.chains.items():
+                    uf = True if name.endswith("T") else (i % 2 == 0)
+                    if name.startswith("sety"):
+                        f = c.set_y(yi)
+                    else:
+                        g_ = 1.0 / self.Sy[i][0, 0]
+                        r_ = self.y[i][0] - self.b[i][0]
+                        v_ = self.M[i][0]
+                        f = factor.OneRankFactor(v=J(v_[None]), g=J(np.array([g_])), nu=J((g_ * r_ * v_)[None]), ln_beta=J(np.array([-0.5 * g_ * r_ * r_ - 0.5 * np.log(2 * np.pi * self.Sy[i][0, 0])])))
+                    chains[name] = m.multiply(f, update_full=uf)
+                return State(post, ev, o.S | {i}, chains)
 
             out.append(("absorb:%d" % i, ap, (lambda mm, i=i: dict(S=mm["S"] | {i}))))
         return out
@@ -130,6 +148,17 @@ class RegSystem:
         ok &= ctx.close("routeA.evidence", np.array([obj.ev]), np.array([ev]), facts=facts)
         if set(obj.S) != set(S):
             ctx.fail("routeA.bookkeeping", "value", facts=facts)
+        for name, m in obj.chains.items():
+            import copy as _copy
+
+            mm = _copy.copy(m)
+            with ctx.guard("chain." + name, facts):
+                site = "set_y.chain_evidence." + name if name.startswith("sety") else "rank1.chain_evidence." + name
+                # (not folded into `ok`: a known finding on this route must not stop the expansion of the lattice)
+                ctx.close(site, np.asarray(mm.log_integral()), np.array([ev]), facts=facts)
+                dens = mm.get_density()
+                ctx.close("chain.%s.mu" % name, np.asarray(dens.mu)[0], mu, facts=facts)
+                ctx.close("chain.%s.Sigma" % name, np.asarray(dens.Sigma)[0], Sig, facts=facts)
         if not S:
             return ok
         # the order of absorption that reached this state first is hist; routes (b), (c) on the set S
